@@ -12,11 +12,11 @@ struct TObj {
   uint16_t idx = 0; uint8_t sub = 0;
   enum Kind { INT, DOMAIN, STRING, OTHER } kind = INT;
   int width = 0;                 // INT: 1, 2, 4
-  bool direct = false, nid = false, rd = true, wr = true;
+  bool direct = false, nid = false, rd = true, wr = true, pdo = false, async = false;
   uint32_t size = 0;             // bytes a client sees (INT: width, DOMAIN: size, STRING: length)
   uint8_t *store = nullptr;      // referenced storage (INT referenced, DOMAIN data, STRING data)
   int dict_index = -1;           // resolved after init (direct entries live in the dictionary array)
-  uint8_t flags() const { return (uint8_t)((rd ? CO_OBJ_____R_ : 0) | (wr ? CO_OBJ______W : 0) | (direct ? CO_OBJ_D_____ : 0) | (nid ? CO_OBJ__N____ : 0)); }
+  uint8_t flags() const { return (uint8_t)((rd ? CO_OBJ_____R_ : 0) | (wr ? CO_OBJ______W : 0) | (direct ? CO_OBJ_D_____ : 0) | (nid ? CO_OBJ__N____ : 0) | (pdo ? CO_OBJ____P__ : 0) | (async ? CO_OBJ___A___ : 0)); }
 };
 
 struct World {
@@ -52,8 +52,8 @@ struct World {
       }
     }
   }
-  TObj &add_int(uint16_t idx, uint8_t sub, int width, bool direct, bool nid, bool rd, bool wr, uint32_t init) {
-    TObj o; o.idx = idx; o.sub = sub; o.kind = TObj::INT; o.width = width; o.direct = direct; o.nid = nid; o.rd = rd; o.wr = wr; o.size = width;
+  TObj &add_int(uint16_t idx, uint8_t sub, int width, bool direct, bool nid, bool rd, bool wr, uint32_t init, bool pdo = false, bool async = false) {
+    TObj o; o.idx = idx; o.sub = sub; o.kind = TObj::INT; o.width = width; o.direct = direct; o.nid = nid; o.rd = rd; o.wr = wr; o.size = width; o.pdo = pdo; o.async = async;
     const CO_OBJ_TYPE *t = width == 1 ? CO_TUNSIGNED8 : width == 2 ? CO_TUNSIGNED16 : CO_TUNSIGNED32;
     uint32_t m = width == 4 ? 0xFFFFFFFFu : (1u << (8 * width)) - 1;
     if (direct) s.add(CO_KEY(idx, sub, o.flags()), t, (CO_DATA)(init & m));
